@@ -56,6 +56,7 @@ CFG_DIMS: Dict[str, Any] = {
 }
 SPECIAL_DIMS: Dict[str, list] = {
     "text": TEXTS, "agent": AGENTS, "now": NOWS, "kill": [False, True],
+    "outage": [False, True],      # the graph store faults on every apply hand-off (apply survives it by design)
     "slice_t1_pops": [None, 1, 2], "slice_t1_iters": [None, 0, 1], "slice_t2_k": [None, 0, 1, 2],
 }
 T1_CFG = {"decay_rate", "edge_mult", "radius_cap", "iter_cap_layers", "queue_budget", "node_budget", "relax_cap",
@@ -118,8 +119,11 @@ WORLDQ = {"graph": {"nodes": [["n:zebra", "zebra"], ["n:cider", "cider"], ["n:ap
           "episodes": [{"id": i, "text": t, "owner": "A", "ts": "2025-08-28T00:00:00Z", "aux": {"importance": 0.5}}
                        for i, t in _QDOCS]}
 WORLDH = dict(copy.deepcopy(WORLDQ), gel_pairs=[["e1", "e4", 0.9], ["e2", "e5", 0.8], ["e4", "e6", 0.7]])
-ALL_WORLDS = [WORLD0, WORLD1, WORLD2, WORLDX, WORLDY, WORLDZ, WORLDW, WORLDE, WORLDQ, WORLDH]
-W_EPS, W_Q, W_H = 7, 8, 9
+# WORLDM: TWO active graphs that both contribute to a turn about "apple" (g:surface as WORLD0, g:aux below)
+WORLDM = dict(copy.deepcopy(WORLD0), graph2={"nodes": [["m:apple", "apple"], ["m:plum", "plum"], ["m:pear", "pear"]],
+                                             "edges": [["m1", "m:apple", "m:plum", 0.9, "supports"]]})
+ALL_WORLDS = [WORLD0, WORLD1, WORLD2, WORLDX, WORLDY, WORLDZ, WORLDW, WORLDE, WORLDQ, WORLDH, WORLDM]
+W_EPS, W_Q, W_H, W_M = 7, 8, 9, 10
 
 # configuration profiles with the gates ON (merged over BASE_CFG)
 PROFILES: Dict[str, Any] = {
@@ -298,13 +302,15 @@ def to_hist_case(case: dict) -> dict:
             sched = {kk: st[d] for d, kk in (("slice_t1_pops", "t1_pops"), ("slice_t1_iters", "t1_iters"),
                                              ("slice_t2_k", "t2_k")) if st[d] is not None}
             ops.append({"op": "turn", "w": op.get("w", 0), "agent": st["agent"], "text": st["text"], "now": st["now"],
-                        "kill": bool(st["kill"]), "cfg": cfg, "sched": sched if sched else None})
+                        "kill": bool(st["kill"]), "outage": bool(st.get("outage")), "cfg": cfg,
+                        "sched": sched if sched else None})
         else:
             o = {kk: vv for kk, vv in op.items() if kk != "dim"}
             o.setdefault("w", 0)
             ops.append(o)
     worlds = [copy.deepcopy(w) for w in ALL_WORLDS][: case.get("nworlds", 1)]
     return {"mode": case["mode"], "cap": case.get("cap", 512), "ttl": case.get("ttl", 300), "worlds": worlds,
+            "mutate_returned": bool(case.get("mutate_returned")),
             "base": _merge(copy.deepcopy(BASE_CFG), PROFILES.get(case.get("profile") or "", {})), "ops": ops}
 
 
@@ -354,7 +360,7 @@ def dim_class(cache: str, dim: str) -> str:
 OPEN_CLASSES: Dict[str, List[str]] = {"t2": [], "turn": [], "t1": []}     # every recorded finding has been repaired
 
 
-NEUTRAL = ("kill", "clock")      # never the stale dimension themselves: they only decide whether a cache is consulted
+NEUTRAL = ("kill", "clock", "outage")      # never the stale dimension themselves: they only decide whether a cache is consulted
 
 
 def classify(case: dict, div: dict) -> str:
@@ -504,7 +510,9 @@ def classify2(case: dict, on: List[dict], off: List[dict], div: dict) -> Tuple[s
         return k, [k]
     cache, dims = rd
     if not dims:
-        k = f"C05:{cache}:hit_differs_from_fill"      # same read-set, different answer: the hit path itself is wrong
+        # same read-set, different answer: the hit path / the cached VALUE is wrong (value_aliasing: only after the
+        # caller edited the containers of a result it had been handed)
+        k = f"C05:{cache}:{'value_aliasing' if case.get('mutate_returned') else 'hit_differs_from_fill'}"
         return k, [k]
     known = OPEN_CLASSES.get(cache, [])
     fresh = [d for d in dims if d not in known]
@@ -530,6 +538,8 @@ def shrink_candidates(case: dict):
         yield dict(case, cap=512)
     if case.get("ttl", 300) != 300:
         yield dict(case, ttl=300)
+    if case.get("mutate_returned"):
+        yield {k: v for k, v in case.items() if k != "mutate_returned"}
 
 
 # ------------------------------------------------------------------------------------------------
@@ -540,15 +550,17 @@ def _dims_for_mode(mode: str) -> List[str]:
     t2 = sorted(T2_CFG) + ["agent", "now", "slice_t2_k"]
     if mode.startswith("t1"):
         return t1 + ["text"] * 3
-    return t1 + t2 + ["text"] * 4 + ["kill"] * 2
+    return t1 + t2 + ["text"] * 4 + ["kill"] * 2 + ["outage"]
 
 
 def gen_history(rng: random.Random, i: int) -> dict:
     from harness.lib.c05_hist import MODES
     mode = MODES[i % len(MODES)] if rng.random() < 0.8 else rng.choice(MODES)
-    nworlds = rng.choice([2, 3, 7, 7, 8, 8]) if rng.random() < (0.35 if mode.startswith("t1") else 0.12) else 1
+    nworlds = rng.choice([2, 3, 7, 7, 8, 8, 11, 11]) if rng.random() < (0.35 if mode.startswith("t1") else 0.12) else 1
     case = {"mode": mode, "cap": rng.choice([1, 2, 512, 512]), "ttl": rng.choice([0, 5, 300, 300]),
             "nworlds": nworlds, "ops": []}
+    if rng.random() < 0.08:
+        case["mutate_returned"] = True     # NON-DECIDING diagnostic: a caller edits the containers of its results
     ops = case["ops"]
     dims = _dims_for_mode(mode)
     # the turn-level manager is only consulted with an unchanged version: start most histories with the kill switch on
@@ -562,9 +574,11 @@ def gen_history(rng: random.Random, i: int) -> dict:
         ops.append({"op": "set", "dim": "text", "val": rng.choice(TEXTS)})
     nturn = rng.choice([2, 3, 3, 4, 5])
     last_sets: List[dict] = []
+    case["_tail"] = rng.random() < 0.7
     for t in range(nturn):
         ops.append({"op": "turn", "w": (rng.choice([3, 4, 5, 6]) if nworlds == 7 and rng.random() < 0.75 else
-                                      W_EPS if nworlds == 8 and rng.random() < 0.8 else rng.randrange(nworlds))})
+                                      W_EPS if nworlds == 8 and rng.random() < 0.8 else
+                                      W_M if nworlds == 11 and rng.random() < 0.85 else rng.randrange(nworlds))})
         if t == nturn - 1:
             break
         for _ in range(rng.choice([0, 1, 1, 1, 2])):
@@ -597,6 +611,10 @@ def gen_history(rng: random.Random, i: int) -> dict:
                 ops.append(dict(copy.deepcopy(rng.choice(EP_ADDS + EP_READDS)), w=rng.randrange(nworlds)))
             else:
                 ops.append({"op": "clock", "dim": "clock", "dt": rng.choice([0, 1, 6, 400])})
+    if case.pop("_tail", False):
+        # a later cache-hit turn: repeat the last turn (same state, same settings)
+        last = [o for o in ops if o["op"] == "turn"][-1]
+        ops.append(dict(last))
     return case
 
 
@@ -622,7 +640,7 @@ def sweep_cases(full: bool = True) -> List[dict]:
     t1_dims = sorted(T1_CFG) + ["slice_t1_pops", "slice_t1_iters", "text"]
     for mode in ("t1_lru", "t1_bytes"):
         for d in t1_dims:
-            for ch in changes_for(d):
+            for ch in (changes_for(d) if (full or mode == "t1_lru") else changes_for(d)[:1]):
                 out.append(hist(mode, ch, pre=two_seeds if d == "perf_frontier" else ()))
         for e in EDGE_EDITS:
             out.append(hist(mode, [copy.deepcopy(e)]))
@@ -646,7 +664,7 @@ def sweep_cases(full: bool = True) -> List[dict]:
         out.append(hist("all_lru", [], pre=order_pre[0], nworlds=7, first_w=a, second_w=b))
     # applies through the real apply_changes / InMemoryGraphStore.apply_deltas (every magnitude class), on the state
     # that has an edge at T1's EPS cut-off; seeded at the edge's source ("tiny") and at "apple"
-    for mode, edits, texts in (("t1_lru", APPLY_EDITS, ("tiny", "tell me about apple")),
+    for mode, edits, texts in (("t1_lru", APPLY_EDITS, ("tiny",)), ("t1_lru", APPLY_EDITS[8:], ("tell me about apple",)),
                                ("t1_bytes", APPLY_EDITS[:8], ("tiny",)),
                                ("t2_lru", APPLY_EDITS[:5], ("tiny",)),
                                ("all_lru", APPLY_EDITS[:5], ("tiny",))):
@@ -692,6 +710,32 @@ def sweep_cases(full: bool = True) -> List[dict]:
                     pre=qtext, nworlds=W_Q + 1, first_w=W_Q, second_w=W_Q, profile="quality"))
     out.append(hist("t2_lru", [{"op": "gel", "dim": "gel_edge", "w": W_H, "a": "e3", "b": "e6", "wt": 0.9}],
                     pre=qtext, nworlds=W_H + 1, first_w=W_H, second_w=W_H, profile="hybrid"))
+    # several active graphs contributing to one turn (the T1 cache holds one entry per graph): repeated requests, a
+    # request where only one of the graphs contributes in between, and the same with the caller editing its results
+    txt = lambda t: {"op": "set", "dim": "text", "val": t}
+    for mode in ("t1_lru", "t1_bytes", "all_lru"):
+        for mut in (False,):
+            for mid in ([], [txt("pear"), {"op": "turn", "w": W_M}, txt("tell me about apple")],
+                        [txt("plum"), {"op": "turn", "w": W_M}, txt("tell me about apple"), {"op": "turn", "w": W_M}]):
+                c = hist(mode, mid, nworlds=W_M + 1, first_w=W_M, second_w=W_M)
+                if mut:
+                    c["mutate_returned"] = True
+                out.append(c)
+    # NON-DECIDING diagnostic (value sharing): the SAME request repeated while the caller edits the result containers it
+    # was handed — outside the property's alphabet; reported as a note only
+    for mode in ("t1_lru", "t2_lru", "turn"):
+        for pre in ([{"op": "set", "dim": "kill", "val": True}],):
+            c = hist(mode, [{"op": "turn", "w": 0}], pre=pre)
+            c["mutate_returned"] = True
+            out.append(c)
+    # a store outage during apply (apply survives it): whatever apply does to the version, the turn-level cache must
+    # stay transparent across an agent switch, a memory add, a config change and a graph edit
+    out_on = [{"op": "set", "dim": "outage", "val": True}]
+    for mode in ("turn", "all_lru"):
+        for ch in ([{"op": "set", "dim": "agent", "val": "B"}], [copy.deepcopy(EP_ADDS[0])],
+                   [{"op": "set", "dim": "k_retrieval", "val": 1}], [copy.deepcopy(EDGE_EDITS[0])],
+                   [{"op": "set", "dim": "outage", "val": False}]):
+            out.append(hist(mode, [{"op": "turn", "w": 0}] + ch, pre=out_on))
     # read-modify-write edits (mutate the stored object, upsert the same object) and the equal-fresh-copy control
     for mode in ("t1_lru", "t1_bytes", "t2_lru"):
         out.append(hist(mode, [{"op": "edge_rmw", "dim": "edge_rmw", "w": 0, "id": "e1", "wt": 0.0}]))
@@ -702,7 +746,8 @@ def sweep_cases(full: bool = True) -> List[dict]:
     t2_dims = sorted(T2_CFG) + ["agent", "now", "slice_t2_k", "text"]
     for mode in ("t2_lru", "t2_bytes"):
         for d in t2_dims + ["decay_rate", "slice_t1_pops"]:
-            for ch in changes_for(d):
+            # quick tier: the byte-bounded mirror keeps the first value of each dimension
+            for ch in (changes_for(d) if (full or mode == "t2_lru") else changes_for(d)[:1]):
                 out.append(hist(mode, ch))
         for e in EDGE_EDITS[:4] + NODE_EDITS + EP_ADDS:
             out.append(hist(mode, [copy.deepcopy(e)]))
@@ -731,4 +776,11 @@ def sweep_cases(full: bool = True) -> List[dict]:
             out.append(hist(mode, changes_for(d)[0]))                      # kill switch off: the version moves
         out.append(hist(mode, [copy.deepcopy(EDGE_EDITS[0])]))
         out.append(hist(mode, [copy.deepcopy(EP_ADDS[0])]))
+    # a LATER cache-hit turn after every kind of turn: an in-turn mutation of a cached / served object by repo code (the
+    # way an aliased accumulator manifests) is only observable on the next hit.  Thorough: every sweep history gets a
+    # trailing repeat of its last turn; quick: every third.
+    for i, c in enumerate(out):
+        if full or i % 3 == 0:
+            last = [o for o in c["ops"] if o["op"] == "turn"][-1]
+            c["ops"] = list(c["ops"]) + [dict(last)]
     return out
